@@ -172,12 +172,20 @@ def ob_snapper(divisions, lo, hi, ctx):
     ctx.check("snap.is-allowed-fraction", ctx.any(*[ctx.eq(frac, g) for g in table]), note="%r" % ctx.value(frac))
     d = r - x
     eps = SLACK
-    near = []
-    for g in table:
-        cand = fl + g
-        # |x - r| <= |x - cand| + eps   (four sign cases folded into two linear constraints each)
-        near.append(ctx.all(ctx.any(ctx.le(d, (cand - x) + eps), ctx.le(d, (x - cand) + eps)), ctx.any(ctx.le(-d, (cand - x) + eps), ctx.le(-d, (x - cand) + eps))))
-    ctx.check("snap.no-allowed-fraction-is-nearer", ctx.all(*near))
+    if not isinstance(frac, SymNum) and F(frac) in table:
+        # the allowed fractions are sorted points on a line: "no allowed fraction is nearer than r" holds exactly when x lies in
+        # the Voronoi cell of r, i.e. between the midpoints to r's two neighbours in the table (per path r - floor(x) is concrete)
+        i = table.index(F(frac))
+        lo_cell = fl + (table[i - 1] + table[i]) / 2 if i > 0 else fl + table[0] - F(1, 2)
+        hi_cell = fl + (table[i] + table[i + 1]) / 2 if i + 1 < len(table) else fl + table[-1] + F(1, 2)
+        ctx.check("snap.no-allowed-fraction-is-nearer", ctx.all(ctx.ge(x, lo_cell - eps), ctx.le(x, hi_cell + eps)), note="snapped to %s" % frac)
+    else:
+        near = []
+        for g in table:
+            cand = fl + g
+            # |x - r| <= |x - cand| + eps   (four sign cases folded into two linear constraints each)
+            near.append(ctx.all(ctx.any(ctx.le(d, (cand - x) + eps), ctx.le(d, (x - cand) + eps)), ctx.any(ctx.le(-d, (cand - x) + eps), ctx.le(-d, (x - cand) + eps))))
+        ctx.check("snap.no-allowed-fraction-is-nearer", ctx.all(*near))
     ctx.check("snap.idempotent", ctx.eq(sn.snap(r), r))
     ctx.check("snap.within-half-grid", ctx.all(ctx.le(d, F(1, 2)), ctx.le(-d, F(1, 2))))
     ctx.observe("snap", r)
@@ -302,14 +310,14 @@ def obligations(tier, seed):
                                   bound="Snapper(divisions=%s).snap(x), x symbolic in [%s,%s)" % (div, lo, hi), max_paths=20000, timeout_s=300))
         obs.append(Obligation("C10/snapper/div=%s/x[-2,-1)+[3,4)" % "-".join(map(str, div)), partial(ob_snapper, div, F(7, 2), F(4)),
                               bound="Snapper(divisions=%s).snap(x), x symbolic in [3.5,4)" % (div,), max_paths=20000, timeout_s=300))
-    # default table (2807 entries): sub-ranges of one beat
-    n_default = 2 if quick else 64
+    # default table (2807 entries): the whole beat, split into sub-ranges over the cores
+    n_default = 16 if quick else 64
     for pi in range(n_default):
-        lo, hi = F(pi, 64), F(pi + 1, 64)
-        if quick:
-            lo, hi = (F(0), F(1, 96)) if pi == 0 else (F(95, 96), F(1))
+        lo, hi = F(pi, n_default), F(pi + 1, n_default)
         obs.append(Obligation("C10/snapper/default/x[%s,%s)" % (lo, hi), partial(ob_snapper, None, lo, hi),
                               bound="Snapper().snap(x) (default divisions, all denominators <= 96), x symbolic in [%s,%s)" % (lo, hi), max_paths=30000, timeout_s=900))
+        if quick and pi % 4:
+            continue
         obs.append(Obligation("C10/roundtrip-free/one-tempo/beat[%s,%s)" % (lo + 5, hi + 5), partial(ob_roundtrip_free, F(375), None, lo + 5, hi + 5),
                               bound="ms->snap->ms of a free symbolic time, 160 bpm, time in beats [%s,%s) after the change" % (lo + 5, hi + 5), max_paths=30000, timeout_s=900))
         obs.append(Obligation("C10/roundtrip-free/two-tempos/beat[%s,%s)" % (lo + 2, hi + 2), partial(ob_roundtrip_free, F(500), F(1000, 3), lo + 2, hi + 2),
